@@ -202,6 +202,8 @@ type c29World struct {
 	oracles  [][2]string
 	stress   bool
 	stuck    bool
+	handles  map[string]vgirpc.VerifC29Handle // w/sidhex -> entry (kept after it left the registry)
+	flagged  map[string]bool
 }
 
 var c29Cur atomic.Pointer[c29World]
@@ -825,8 +827,65 @@ func (w *c29World) status(t *c29Thread) string {
 	return pre + "done:" + oc + ":" + obs + ":" + tok
 }
 
+// captureHandles remembers every live entry so that its lock can be probed after removal.
+func (w *c29World) captureHandles() {
+	if w.handles == nil {
+		w.handles = map[string]vgirpc.VerifC29Handle{}
+		w.flagged = map[string]bool{}
+	}
+	for wi, wk := range w.workers {
+		for sid, h := range wk.h.VerifC29Handles() {
+			w.handles[fmt.Sprintf("%d/%s", wi, hex.EncodeToString([]byte(sid)))] = h
+		}
+	}
+}
+
+// checkLocks states "no request leaves a session locked after it completes" directly: a session lock
+// that is held although no unfinished request can be its holder was left behind by a finished one;
+// and requests that are all parked on session locks with nobody left to release them never run.
+func (w *c29World) checkLocks() {
+	w.captureHandles()
+	holders := map[string]bool{} // sessions an unfinished, not-parked request may legitimately hold
+	parked, movers := []*c29Thread{}, 0
+	for _, t := range w.threads {
+		st := t.getStatus()
+		if st == "done" {
+			continue
+		}
+		if st == "running" && t.atLock {
+			parked = append(parked, t)
+			continue
+		}
+		movers++
+		t.mu.Lock()
+		if t.resumed != "" {
+			holders[fmt.Sprintf("%d/%s", t.worker, t.resumed)] = true
+		}
+		t.mu.Unlock()
+		if t.target != "" {
+			holders[fmt.Sprintf("%d/%s", t.worker, t.target)] = true
+		}
+	}
+	for k, h := range w.handles {
+		if !holders[k] && !w.flagged["L"+k] && h.Locked() {
+			w.flagged["L"+k] = true
+			w.oracle("session-left-locked", fmt.Sprintf("the lock of session %s is held although every request that could hold it has completed", k))
+		}
+	}
+	if movers == 0 {
+		for _, t := range parked {
+			k := fmt.Sprintf("Q%d", t.id)
+			if !w.flagged[k] {
+				w.flagged[k] = true
+				w.oracle("queued-call-never-ran", fmt.Sprintf("request %d is parked on the lock of session %d/%s and no running request is left to release it", t.id, t.worker, t.target))
+			}
+		}
+	}
+}
+
 func (w *c29World) report(head string) string {
 	w.settleAll()
+	w.checkLocks()
 	parts := []string{head}
 	for _, t := range w.threads {
 		if t.reported {
@@ -910,7 +969,7 @@ func (w *c29World) snapshot(c *Case, line string) string {
 
 // ---------------------------------------------------------------- exec
 
-func c29Exec(c *Case) {
+func c29ExecLocal(c *Case) {
 	w := &c29World{byID: map[int]*c29Thread{}, states: map[string]*c29State{}}
 	c29Cur.Store(w)
 	defer func() {
